@@ -689,6 +689,12 @@ def run_converse(case) -> CaseResult:
     ca = memwire.key('c05-ca', 'ssh-ed25519')
     optstr = OPTION_SETS[case['opts'] % len(OPTION_SETS)]
     cred = case['cred']
+    # authorized_keys shape: is the plain key listed next to the CA line, and
+    # does the CA line carry principals="..." (sshd(8): at least one listed
+    # name must appear in the certificate's principals)
+    key_listed = case.get('key_listed', True)
+    ca_princ = case.get('ca_princ', 'alice')
+    cert_princ = case.get('cert_princ', 'user')
     base = make_server(log, gate, '')
     pub = ukey.export_public_key().decode().strip()
     capub = ca.export_public_key().decode().strip()
@@ -698,8 +704,11 @@ def run_converse(case) -> CaseResult:
             log.append(('begin_auth', username))
             text = ''
             if username == 'alice':
-                text = (optstr + ' ' if optstr else '') + pub + '\n' + \
-                    'cert-authority,principals="alice" ' + capub + '\n'
+                text = ''
+                if key_listed:
+                    text += (optstr + ' ' if optstr else '') + pub + '\n'
+                text += 'cert-authority%s %s\n' % (
+                    ',principals="%s"' % ca_princ if ca_princ else '', capub)
             self.conn.set_authorized_keys(
                 asyncssh.import_authorized_keys(text) if text else None)
             return True
@@ -733,19 +742,34 @@ def run_converse(case) -> CaseResult:
         expect = case['valid'] and case['user'] in KBD
     elif cred == 'key':
         copts['client_keys'] = [ukey if case['valid'] else okey]
-        expect = case['valid'] and case['user'] == 'alice' and from_ok
+        expect = case['valid'] and case['user'] == 'alice' and from_ok and \
+            key_listed
         restr = opts if expect else {}
     else:   # certificate
         signer = ca if case['valid'] else okey
+        plist = {'user': [case['user']], 'empty': [],
+                 'other': ['mallory'], 'both': ['mallory', case['user']]}[
+                     cert_princ]
         cert = signer.generate_user_certificate(
-            ukey, 'kid', principals=[case['user']],
+            ukey, 'kid', principals=plist,
             permit_pty='no-pty' not in optstr and case['cert_pty'],
             force_command='cert-cmd' if case['cert_cmd'] else None)
         copts['client_keys'] = [(ukey, cert)]
         # the plain key is also listed for alice: if the certificate is
         # refused the client falls back to it
-        cert_ok = case['valid'] and case['user'] == 'alice'
-        key_ok = case['user'] == 'alice' and from_ok
+        # a certificate is valid for the user it names (or any user when it
+        # names none); a principals= option on the CA line additionally
+        # demands that one of ITS names is listed in the certificate
+        names_user = not plist or case['user'] in plist
+        option_ok = not ca_princ or any(p in plist
+                                        for p in ca_princ.split(','))
+        cert_ok = case['valid'] and case['user'] == 'alice' and \
+            names_user and option_ok
+        key_ok = case['user'] == 'alice' and from_ok and key_listed
+        labels_extra = {'cert-princ:' + cert_princ,
+                        'ca-line:' + ('principals' if ca_princ else 'plain')}
+        if case['valid'] and case['user'] == 'alice' and not cert_ok:
+            labels_extra.add('cert-refused-by-principals')
         expect = cert_ok or key_ok
         if cert_ok:
             restr = {'cert': True}
@@ -755,6 +779,9 @@ def run_converse(case) -> CaseResult:
     pair = Pair({'server_factory': Server, 'encoding': None}, copts, h=h)
     labels = {'cred:' + cred, 'valid' if case['valid'] else 'invalid',
               'user:' + case['user']}
+
+    if cred == 'cert':
+        labels |= labels_extra
 
     try:
         pair.start()
@@ -847,7 +874,10 @@ def converse_strategy(tier: str):
         'user': pick(['alice', 'alice', 'alice', 'bob', 'eve']),
         'opts': pick(range(len(OPTION_SETS))),
         'gated': st.booleans(), 'want_pty': st.booleans(),
-        'cert_pty': st.booleans(), 'cert_cmd': st.booleans()})
+        'cert_pty': st.booleans(), 'cert_cmd': st.booleans(),
+        'key_listed': pick([True, False]),
+        'ca_princ': pick(['alice', 'alice', '', 'bob,alice', 'bob']),
+        'cert_princ': pick(['user', 'user', 'empty', 'other', 'both'])})
 
 
 def switch_cases(tier: str):
@@ -916,7 +946,9 @@ FAMILIES = [
            budget={'quick': 800, 'thorough': 8000},
            required={'all': ['cred:password', 'cred:kbdint', 'cred:key',
                              'cred:cert', 'admitted', 'refused', 'via-cert',
-                             'session-opened']},
+                             'session-opened', 'cert-princ:empty',
+                             'cert-refused-by-principals',
+                             'ca-line:plain']},
            case_timeout=120),
     Family('switch', run_history, enumerate=switch_cases, exhaustive=True,
            required={'all': ['lazy-key-install', 'user-switch',
